@@ -139,6 +139,23 @@ fn c07_sorter_equals_sort_and_merge() {
             }
         }
     }
+    // pending entries that are all empty pairs at consumption time: alone, and right after a spill that the empty pair
+    // itself triggered (fixed 10 MiB buffer filled to the last byte by 10240 entries of 16+8+1000 bytes)
+    for route in 0..3 {
+        let sc = SorterCfg { threshold: 0, realloc: false, max_chunks: 3, algo: SortAlgorithm::Stable, par: false, ct: grenad::CompressionType::None, levels: 0, block: 1024, interval: 2 };
+        for fill in [false, true] {
+            let mut inserts: Vec<(Vec<u8>, Vec<u8>)> = vec![];
+            if fill { for i in 0..10240u64 { inserts.push((i.to_be_bytes().to_vec(), vec![(i % 250) as u8 + 1; 1000])); } }
+            inserts.push((vec![], vec![]));
+            if !fill { inserts.push((vec![], vec![])); }
+            let mut want: BTreeMap<Vec<u8>, Vec<u8>> = BTreeMap::new();
+            for (k, v) in &inserts { want.entry(k.clone()).or_default().extend_from_slice(v); }
+            let got = run_sorter(&sc, &inserts, route).unwrap_or_else(|e| cex(format!("C07 sorter failed on the empty-pair scenario: {}", e)));
+            let want_v: Entries = want.into_iter().collect();
+            if got != want_v { cex(format!("C07 output has {} keys, expected {} (first expected key {:?}): pending entries that are all empty pairs {} (route {})", got.len(), want_v.len(), want_v.first().map(|e| hex(&e.0)), if fill { "right after a spill of a completely full 10 MiB buffer" } else { "in a sorter that never spilled" }, route)); }
+            runs += 1;
+        }
+    }
     stat("runs", runs); stat("runs_with_spills", spilled_runs);
     assert!(spilled_runs > 0);
 }
